@@ -4,29 +4,40 @@
 (* positions are exactly those reached from start' by step while staying on the  *)
 (* proper side of stop'.                                                          *)
 EXTENDS Slice, TLC
-CONSTANTS N, B
+CONSTANTS N, B,
+          BIG       \* extents for the index-math scope (up to 2^31 - 9): bounds are taken around 0, n/2 and n of either sign
 VARIABLES n, start, stop, step
 vars == <<n, start, stop, step>>
 Opt(S) == {<<>>} \cup {<<v>> : v \in S}
-Init == /\ n \in 1..N /\ start \in Opt((-(N + B))..(N + B)) /\ stop \in Opt((-(N + B))..(N + B))
-        /\ step \in Opt((-3..3) \ {0})
-        /\ (start # <<>> => start[1] \in (-(n + B))..(n + B)) /\ (stop # <<>> => stop[1] \in (-(n + B))..(n + B))
+Around(m) == UNION {{c - B, c - 1, c, c + 1, c + B} : c \in {0, m \div 2, m}}
+BigBounds(m) == Around(m) \cup {-x : x \in Around(m)}
+Init == \/ /\ n \in 1..N /\ start \in Opt((-(N + B))..(N + B)) /\ stop \in Opt((-(N + B))..(N + B))
+           /\ step \in Opt((-3..3) \ {0})
+           /\ (start # <<>> => start[1] \in (-(n + B))..(n + B)) /\ (stop # <<>> => stop[1] \in (-(n + B))..(n + B))
+        \/ /\ n \in BIG /\ start \in Opt(BigBounds(n)) /\ stop \in Opt(BigBounds(n)) /\ step \in Opt((-3..3) \ {0})
+Small == n <= N
 Next == UNCHANGED vars
 Spec == Init /\ [][Next]_vars
 P == PySlice(start, stop, step, n)
 Sel == {P.start + k * P.step : k \in 0..(P.len - 1)}
-LawInRange == \A x \in Sel : x >= 0 /\ x < n
-LawLenIsRangeLen ==
+LawInRange == Small => \A x \in Sel : x >= 0 /\ x < n
+LawLenIsRangeLen == Small =>
     LET members == {x \in (-1)..n : IF P.step > 0 THEN x >= P.start /\ x < P.stop /\ (x - P.start) % P.step = 0
                                     ELSE x <= P.start /\ x > P.stop /\ (P.start - x) % (-P.step) = 0}
     IN members = Sel /\ Cardinality(Sel) = P.len
+\* the same characterisation without enumeration (any extent): len is the number of steps from start' that stay on the proper
+\* side of stop'; checked together with LawLenIsRangeLen on the small scope and alone on the BIG extents
+Proper(x) == IF P.step > 0 THEN x >= 0 /\ x < P.stop /\ x < n ELSE x <= n - 1 /\ x > P.stop /\ x >= 0
+LawLenBoundary == /\ P.len >= 0
+                  /\ P.len > 0 => Proper(P.start) /\ Proper(P.start + (P.len - 1) * P.step)
+                  /\ ~Proper(P.start + P.len * P.step)
 LawDefaults == /\ (start = <<>> /\ stop = <<>> /\ step = <<>>) => (P.start = 0 /\ P.len = n)
                /\ (start = <<>> /\ stop = <<>> /\ step = <<-1>>) => (P.start = n - 1 /\ P.len = n)
 LawNegativeCountsFromEnd ==
     /\ (start # <<>> /\ start[1] < 0 /\ start[1] >= -n) => PySlice(<<start[1] + n>>, stop, step, n) = P
     /\ (stop # <<>> /\ stop[1] < 0 /\ stop[1] >= -n) => PySlice(start, <<stop[1] + n>>, step, n) = P
 \* the view over a 1-d array picks exactly these elements in this order
-LawViewElements == LET A == Leaf(<<n>>, 0)  v == SliceView(A, <<[k |-> "s", start |-> start, stop |-> stop, step |-> step]>>) IN
+LawViewElements == Small => LET A == Leaf(<<n>>, 0)  v == SliceView(A, <<[k |-> "s", start |-> start, stop |-> stop, step |-> step]>>) IN
     /\ v.ok /\ v.shape = <<P.len>>
     /\ v.elems = [k \in 1..P.len |-> P.start + (k - 1) * P.step + 1]
 =================================================================================
